@@ -467,7 +467,7 @@ pub fn c12(a: &Args, rep: &mut Report) {
         rep.count("inputs_with_all_masks_enumerated", 1);
     });
     medium_cases(a, rep, "C12", |c, rep| one_c12("C12", c, rep));
-    large_cases(a, rep, "C12", &[20000, 70000, 70000], &[20000, 70000, 140000, 270000], |c, rep| {
+    large_cases(a, rep, "C12", &[20000, 70000], &[20000, 70000, 140000, 270000], |c, rep| {
         let mut c = c.clone();
         if c.n() % 2 == 0 {
             let mut r = Rng::stream("C12largemask", &[c.hash()]);
